@@ -57,7 +57,15 @@ def main():
         print("%-48s %s %-8s exit=%d viol=%d repro=%d %s | %s quick exit=%d  %s" % (
             it["id"], it["property"], it["expect"], r["exit"], r["violations_reported"], r["replays_reproduced"],
             ",".join(r["classes"]), other, c["exit"], "OK" if ok else "UNEXPECTED"), flush=True)
-    json.dump({"tier": tier, "rows": rows}, open(os.path.join(VERIF, "sensitivity.json"), "w"), indent=1, ensure_ascii=False)
+    outp = os.path.join(VERIF, "sensitivity.json")
+    if only and os.path.exists(outp):
+        # partial run: merge into the existing table
+        old = json.load(open(outp))["rows"]
+        new_ids = {r["id"] for r in rows}
+        merged = [r for r in old if r["id"] not in new_ids] + rows
+        order = {it["id"]: i for i, it in enumerate(items)}
+        rows = sorted(merged, key=lambda r: order.get(r["id"], 1e9))
+    json.dump({"tier": tier, "rows": rows}, open(outp, "w"), indent=1, ensure_ascii=False)
     st = subprocess.run("git -C /repo status --porcelain", shell=True, stdout=subprocess.PIPE, text=True).stdout.strip()
     print("repo clean after:", st == "")
 
